@@ -145,6 +145,38 @@ fn main() {
             let code = dispatch!(id.as_str(), do_replay, path);
             std::process::exit(code);
         }
+        "fuzz-replay" => {
+            // plain (non-libFuzzer) replay of a byte-level artefact through the shared oracle
+            let target = args.get(2).cloned().unwrap_or_default();
+            let path = PathBuf::from(args.get(3).cloned().unwrap_or_default());
+            let data = match std::fs::read(&path) {
+                Ok(d) => d,
+                Err(e) => {
+                    println!("REPLAY-ERROR {}", e);
+                    std::process::exit(2);
+                }
+            };
+            let saved = unsafe { libc::dup(1) };
+            silence_stdio();
+            let r = guarded(|| itv_oracles::run(&target, &data));
+            unsafe {
+                libc::dup2(saved, 1);
+            }
+            match r {
+                Ok(Ok(())) => {
+                    println!("REPLAY-PASS target={} file={}", target, path.display());
+                    std::process::exit(0);
+                }
+                Ok(Err(e)) => {
+                    println!("ORACLE-VIOLATION target={} {}", target, e);
+                    std::process::exit(1);
+                }
+                Err(pi) => {
+                    println!("PANIC target={} at {}:{}: {}", target, pi.file, pi.line, pi.message);
+                    std::process::exit(1);
+                }
+            }
+        }
         "verify-dir" => {
             // one verification in a fresh process (fresh hash seeds); used by C13
             let dir = PathBuf::from(args.get(2).cloned().unwrap_or_default());
